@@ -98,7 +98,8 @@ def func_items(tier):
 
 
 # -- wire level ----------------------------------------------------------------
-TREE = {"pub": {"f": b"pubf", "sub": {"g": b"pg"}}, "priv": {"f": b"privf", "sub": {"g": b"sg"}}, "top": b"t",
+TREE = {"pub": {"f": b"pubf", "sub": {"g": b"pg"}, "v1..v2": b"dotted"},
+        "priv": {"f": b"privf", "sub": {"g": b"sg"}, "a..b": {"h": b"dd"}}, "top": b"t",
         "public": {"f": b"publicf"}, "pub2": b"p2",          # names that merely start with an entry's name
         "priv\\f": b"backslash-name"}                          # one component whose name contains a backslash
 WTABLES = {
@@ -112,7 +113,9 @@ WTABLES = {
 }
 TARGETS = ["/pub", "/pub/f", "/pub/sub", "/pub/sub/g", "/priv", "/priv/f", "/priv/sub", "/priv/sub/g", "/top", "/new",
            "/pub/new", "/priv/new", "/priv/sub/new", "/", "/public", "/public/f", "/public/new", "/pub2", "/pubnew",
-           "/priv\\f", "/priv\\new"]
+           "/priv\\f", "/priv\\new",
+           # names with two dots *inside* them are names, not steps upwards
+           "/pub/v1..v2", "/priv/a..b", "/priv/a..b/h", "/priv/new..", "/pub/..new"]
 VERBS = ["CWD", "CDUP", "LIST", "MLSD", "MLST", "RETR", "MKD", "RMD", "DELE", "RNFR", "RNTO", "STOR", "APPE"]
 CWDS = ["/", "/pub", "/priv/sub"]
 
